@@ -211,6 +211,27 @@ def extract_rg_prefix(dst):
     return 1
 
 
+def extract_rg_tail(dst):
+    """Rule R6: copy the last region of yaep_read_grammar (from `if (grammar->axiom == NULL)` to the closing `return 0;`: NO_RULES test,
+    implicit rule `$S : error $eof`, check_grammar, symb_finish_adding_terms, debug output, undefined_p = FALSE) into a generated
+    function.  Must-fire on both anchors; nothing inside the region is dropped."""
+    text = open(os.path.join(dst, "yaep.c")).read()
+    sh = _shadow(text)
+    b0, b1 = find_function(text, sh, "yaep_read_grammar")
+    body = text[b0:b1 + 1]
+    m0 = [m for m in re.finditer(r"if \(grammar->axiom == NULL\)\s*VERIF_ERROR \(YAEP_NO_RULES", body)]
+    m1 = [m for m in re.finditer(r"grammar->undefined_p = FALSE;\s*return 0;\s*}\s*$", body)]
+    if len(m0) != 1 or len(m1) != 1 or m0[0].start() > m1[0].start():
+        raise StageError("R6: anchors of the last region of yaep_read_grammar did not fire (%d, %d)" % (len(m0), len(m1)))
+    region = body[m0[0].start():m1[0].end() - 1].rstrip()
+    region = region[:region.rfind("}")] if False else region
+    line = text.count("\n", 0, b0 + m0[0].start()) + 1
+    out = ("/* generated by stage.py rule R6 on every run: last region of yaep_read_grammar, text copied verbatim */\n"
+           "static int verif_rg_tail (int strict_p, struct symb *start)\n{\n  struct symb *symb;\n  struct rule *rule;\n  int i;\n#line %d \"yaep.c\"\n  %s\n}\n" % (line, region))
+    open(os.path.join(dst, "r6_rg_tail.inc"), "w").write(out)
+    return 1
+
+
 def stage(dst, loops_files=None):
     """Populate dst with the staged sources. Returns info dict."""
     os.makedirs(dst, exist_ok=True)
@@ -268,6 +289,7 @@ def stage(dst, loops_files=None):
     info["r3_sites"] = extract_unwind(dst)
     info["r4"] = extract_codes_tail(dst)
     info["r5"] = extract_rg_prefix(dst)
+    info["r6"] = extract_rg_tail(dst)
     # bison exactly as src/CMakeLists.txt does (bison_target -> bison -o sgramm.c sgramm.y)
     r = subprocess.run(["bison", "-o", "sgramm.c", "sgramm.y"], cwd=dst, capture_output=True, text=True)
     if r.returncode != 0 or not os.path.exists(os.path.join(dst, "sgramm.c")):
